@@ -40,7 +40,10 @@ Conforms(h, r) ==
 TraceCb ==
     /\ IsEvent("cb")
     /\ LET r  == Rec[l]
-           h2 == Callback(sc, hs, r.k, r.te)
+           \* oracle for Brent's result: the logged event time; a function whose event was not reported at this
+           \* callback (cut off by a terminal stop) can only have been sorted after the reported ones
+           te == [i \in 1..Len(r.te) |-> IF r.te[i] = 0 /\ r.k >= 1 THEN sc.grid[r.k + 1] + 1 ELSE r.te[i]]
+           h2 == Callback(sc, hs, r.k, te)
        IN  /\ hs' = h2
            /\ ok' = (ok /\ Conforms(h2, r))
            /\ (ok /\ ~Conforms(h2, r)) => PrintT(<<"DRIFT", "cb", l, r.k>>)
